@@ -133,6 +133,9 @@ def applicable_ops(tm, g):
         for sv in tm.services_of(n):
             if t != 'Facility':
                 ops.append({'op': 'remove_node_service', 'node': nm, 'name': tm.name(sv)})
+                # the topology-level call accepts a node's own service as well
+                if [tm.name(x) for x in tm.ids('NetworkService')].count(tm.name(sv)) == 1:
+                    ops.append({'op': 'remove_network_service', 'name': tm.name(sv)})
                 for i in tm.ifaces_of_service(sv):
                     if g.substrate:
                         ops.append({'op': 'service_remove_interface', 'service': tm.name(sv), 'name': tm.name(i), '_iface_id': i})
@@ -153,13 +156,30 @@ def applicable_ops(tm, g):
                 ops.append({'op': 'disconnect_interface', 'service': tm.name(svc), 'iface': ref, '_iface_id': i, 'cached': True})
                 ops.append({'op': 'disconnect_interface', 'service': tm.name(svc), 'iface': ref, '_iface_id': i, 'cached': 'creation'})
     seen = set()
-    for s in top:
+    allsvc = tm.ids('NetworkService')
+    names = [tm.name(x) for x in allsvc]
+    uniq = [x for x in allsvc if names.count(tm.name(x)) == 1]       # the harness addresses services by name
+    for s in uniq:
         for cp in tm.ifaces_of_service(s):
             for p in tm.peers(cp):
                 q = tm.cp_parent(p)
-                if q in top and q != s and (s, q) not in seen:
+                if q in uniq and q != s and (s, q) not in seen:
                     seen.add((s, q))
-                    ops.append({'op': 'unpeer', 'a': tm.name(s), 'b': tm.name(q), '_a_id': s, '_b_id': q, 'cached': True})
+                    if tm.typ(cp) == 'ServicePort' and tm.typ(p) == 'ServicePort':
+                        ops.append({'op': 'unpeer', 'a': tm.name(s), 'b': tm.name(q), '_a_id': s, '_b_id': q, 'cached': True})
+                    else:
+                        # an interface of q connected to s is not a peering of the two services
+                        ops.append({'op': 'unpeer', 'a': tm.name(s), 'b': tm.name(q), '_a_id': s, '_b_id': q, 'cached': False, '_refusal': True})
+    # two services that do NOT peer but sit close to each other in the model (own services of two components of one node, two
+    # services of one node): un-peering them is refused and removes nothing
+    for n in tm.ids('NetworkNode'):
+        near = [sv for c in tm.components(n) for sv in tm.services_of(c) if sv in uniq] + [sv for sv in tm.services_of(n) if sv in uniq]
+        for a in near:
+            for b in near:
+                if a != b and (a, b) not in seen and (b, a) not in seen and len(ops) < 400:
+                    seen.add((a, b))
+                    ops.append({'op': 'unpeer', 'a': tm.name(a), 'b': tm.name(b), '_a_id': a, '_b_id': b, 'cached': False, '_refusal': True})
+                    break
     return ops
 
 
@@ -247,7 +267,14 @@ def check_state(ctx, imp, store, flavour, topo, script):
             exc = f'{type(e).__name__}: {str(e)[:200]}'
         post = canon.graph_snapshot(imp, gid) or {'nodes': {}, 'edges': {}}
         ctx.seen([shash, pub], exp is not None and len(exp[0]) > 1)
-        if exc is not None:
+        if op.get('_refusal'):
+            ctx.count('ops:unpeer-of-services-that-do-not-peer')
+            if exc is None or post != pre:
+                ctx.violation('C08/unpeer-of-services-that-do-not-peer-removes-elements' if post != pre else
+                              'C08/unpeer-of-services-that-do-not-peer-accepted',
+                              'un-peering leaves every other element of the model exactly as it was (two services that do not peer: '
+                              'nothing is removed, the call is refused)', dict(w, exception=exc, diff=canon.diff(pre, post)))
+        elif exc is not None:
             ctx.violation(f'C08/{op["op"]}-raises', 'an applicable removal succeeds', dict(w, exception=exc))
         elif exp is not None:
             deleted, dontcare = exp
@@ -346,6 +373,13 @@ def force_shapes(rng, topo, flavour, g):
         b = g.fresh('nic')
         opc.update(ns_node_id=b + '-sf', if_node_ids=[b + '-p1', b + '-p2'], if_labels=[{'mac': '04:3F:72:B7:15:01'}, {'mac': '04:3F:72:B7:15:02'}])
     do(opc)
+    # two services of ONE node that peer (closer to each other over their 'has' edges than over the peering link)
+    sn = g.fresh('fsn')
+    if do({'op': 'add_node', 'name': sn, 'node_id': nid('n'), 'site': 'RENC', 'ntype': 'Switch'}):
+        pa, pb = g.fresh('fp'), g.fresh('fp')
+        do({'op': 'add_node_service', 'node': sn, 'name': pa, 'node_id': nid('ns'), 'nstype': 'L3VPN', 'kw': {}})
+        do({'op': 'add_node_service', 'node': sn, 'name': pb, 'node_id': nid('ns'), 'nstype': 'L3VPN', 'kw': {}})
+        do({'op': 'peer', 'a': pa, 'b': pb})
     s1, s2 = g.fresh('sub'), g.fresh('sub')
     do({'op': 'add_child_interface', 'iface': [n1, c + '-p1'], 'name': s1, 'node_id': nid('sub'), 'kw': {'labels': {'vlan': '100'}}})
     do({'op': 'add_child_interface', 'iface': [n1, c + '-p1'], 'name': s2, 'node_id': nid('sub'), 'kw': {'labels': {'vlan': '101'}}})
@@ -360,6 +394,11 @@ def force_shapes(rng, topo, flavour, g):
         do({'op': 'add_network_service', 'name': sa, 'node_id': None, 'nstype': 'L2Bridge', 'interfaces': [[n1, c + '-p1', s1], second]})
         do({'op': 'add_network_service', 'name': sb, 'node_id': None, 'nstype': 'L2STS', 'interfaces': [[n1, c + '-p1', s2]]})
         do({'op': 'peer', 'a': sa, 'b': sb})
+        # a switch port with a sub-interface that is connected to a service of its own
+        fsw, fsub = g.fresh('fsw'), g.fresh('sub')
+        if do({'op': 'add_switch', 'name': fsw, 'node_id': None, 'site': 'RENC', 'nports': 2}):
+            if do({'op': 'add_child_interface', 'iface': [fsw, 'p1'], 'name': fsub, 'node_id': None, 'kw': {'labels': {'vlan': '300'}}}):
+                do({'op': 'add_network_service', 'name': g.fresh('fs'), 'node_id': None, 'nstype': 'L2Bridge', 'interfaces': [[fsw, 'p1', fsub], [fsw, 'p2']]})
         # a handle put aside, the service renamed through another handle, then peered 'with the renamed one' through the old
         # handle: a service offered to itself as peer (refused by a correct library, so the shape is then simply absent)
         sc, scn = g.fresh('fs'), g.fresh('rn')
